@@ -67,12 +67,18 @@ def mk_prog(defs, cfg):
     return sc.Program([sc.Defn(f, [sc.Site(**s) for s in sites], lim) for (f, sites, lim) in defs], dict(cfg))
 
 
+def declared(ctl, p, job):
+    v = ctl.remember(job)
+    return p.specs[v]["limits"] if 0 <= v < len(p.specs) else job.get_limits()
+
+
 def oracle_hook(ctx, p, viol):
     def after(ctl):
         s = ctl.scheduler
         for name in sc.RES:
             lim = p.limits_cfg.get(name, 1)
-            held = sum(j.get_limits().get(name, 0) for j in ctl.inflight)
+            # demands come from the program (what the task declared), not from the scheduler's own Job.get_limits()
+            held = sum(declared(ctl, p, j).get(name, 0) for j in ctl.inflight)
             used = s.limits_used.get(name, 0)
             if held > lim:
                 viol.append(("C08-inflight-exceeds-limit", "units held by in-flight jobs exceed the limit",
